@@ -101,6 +101,18 @@ def final(h: Any, e: Any, state: dict[str, Any]) -> None:
                 open_slots[key] = 0
         # a RUNNING may stay unmatched only if the run ended (it always has, here) - but a run that
         # completed normally must have closed the slot of the invocation that produced the result
+    # a run that is still live when nothing more can happen: every step body that has returned (or raised) must have been
+    # reported NOT_RUNNING - a result nobody ever picks up leaves its slot RUNNING for ever
+    hd_ = state.get("hd")
+    if hd_ is not None and not hd_.is_done():
+        seg = h.published[marks[-2]:]
+        for name in {i.step for i in h.invocations}:
+            ended = sum(1 for i in h.invocations[getattr(h, "c35_invs_before_last_run", 0):]
+                        if i.step == name and i.exited and type(i.exc).__name__ not in ("CancelledError", "WaitingForEvent"))
+            reported = sum(1 for ev in seg if isinstance(ev, StepStateChanged) and ev.name == name and ev.step_state == StepState.NOT_RUNNING)
+            if ended > reported and not state.get("resumed"):
+                h.violate("returned_step_never_reported_not_running", {"step_kind": kind(name)},
+                          f"run still live and nothing enabled: {ended} bodies of {name} have ended, {reported} NOT_RUNNING published")
     # bodies must start inside an announced RUNNING window: checked at entry below
     for clause, w, d in getattr(h, "_c35_entry_viol", []):
         h.violate(clause, w, d)
